@@ -54,8 +54,15 @@ def run_model(lines, nproc=NPROC):
     wrapper = os.path.join(build.VERIF, "harness", "model.sh")
     return [unhex(x) for x in run_sharded(wrapper, lines, nproc=nproc)]
 
+COVDIR = None     # set by the check context: where the instrumented binaries write their coverage counters
+
+def _covenv(env=None):
+    if COVDIR is None: return env
+    e = dict(env if env is not None else os.environ); e["GOCOVERDIR"] = COVDIR
+    return e
+
 def run_pub(impl, lines, race=False, nproc=NPROC):
-    return [unhex(x) for x in run_sharded(impl["pub_race" if race else "pub"], lines, nproc=nproc)]
+    return [unhex(x) for x in run_sharded(impl["pub_race" if race else "pub"], lines, env=_covenv(), nproc=nproc)]
 
 # ---------------------------------------------------------------------------
 # command-line cases
@@ -195,7 +202,7 @@ def classify_error(msg):
     if "no space left" in m or "short write" in m or "broken pipe" in m or m.startswith("write "): return "write"
     return "other:" + m
 
-def run_cli_case(impl, case, workdir, timeout=20):
+def run_cli_case(impl, case, workdir, timeout=20, cover=False):
     """runs the real binary; returns dict(status, stdout, raw_err, rc)"""
     d = tempfile.mkdtemp(prefix="c", dir=workdir)
     try:
@@ -203,6 +210,7 @@ def run_cli_case(impl, case, workdir, timeout=20):
         argv, env = argv_env(case)
         full_env = {"PATH": "/usr/bin:/bin", "HOME": d}
         full_env.update(env)
+        if cover and COVDIR: full_env["GOCOVERDIR"] = COVDIR
         cmd = [impl["hr"]] + argv
         if "@default-config" in case.get("files", {}):
             # the default configuration file lives in the passwd home directory (/root): give the
@@ -229,7 +237,12 @@ def run_cli_cases(impl, cases, nproc=NPROC):
     work = tempfile.mkdtemp(prefix="hv-run.", dir="/var/tmp")
     try:
         with cf.ThreadPoolExecutor(max_workers=nproc) as ex:
-            return list(ex.map(lambda c: run_cli_case(impl, c, work), cases))
+            res = list(ex.map(lambda c: run_cli_case(impl, c, work), cases))
+            if COVDIR is not None and impl.get("hr_cover"):
+                # coverage measurement only: every 4th case once more on the instrumented build of the same sources (results discarded)
+                cimpl = dict(impl, hr=impl["hr_cover"])
+                list(ex.map(lambda c: run_cli_case(cimpl, c, work, cover=True), [c for c in cases[::4] if "@default-config" not in c.get("files", {})]))
+            return res
     finally:
         shutil.rmtree(work, ignore_errors=True)
 
@@ -245,7 +258,7 @@ def run_inproc_cases(impl, cases, nproc=NPROC, repeat=1):
             argv, env = argv_env(c)
             lines.append(json.dumps({"args": argv, "env": env, "cwd": d, "sink": c["sink"] if c.get("sink") is not None else -1}))
         lines = [l for l in lines for _ in range(repeat)]
-        env = dict(PATH="/usr/bin:/bin", HOME=work, HR_VERIF_SERVE="1", TZ="UTC")
+        env = _covenv(dict(PATH="/usr/bin:/bin", HOME=work, HR_VERIF_SERVE="1", TZ="UTC"))
         outs = run_sharded(impl["hr_verif"], lines, env=env, nproc=nproc)
         res = []
         for o in outs:
